@@ -42,7 +42,7 @@ pub fn run(tier: Tier) -> Outcome {
     let mut runs = vec![];
     for wn in worlds {
         let Some(h) = guarded(&format!("C02 world {wn}"), || model(tier, wn)) else { continue };
-        let lim = Limits { max_depth: depth, max_wall_s: if tier == Tier::Quick { 40.0 } else { 2400.0 }, ..Default::default() };
+        let lim = Limits { max_depth: depth, max_wall_s: if tier == Tier::Quick { 300.0 } else { 2400.0 }, ..Default::default() };
         let (report, recheck) = run_world(&h, &lim, Some(depth - 1));
         runs.push(HistRun { world: wn.to_string(), report, recheck });
     }
